@@ -39,9 +39,17 @@ PROPERTY = 'C09'
 SIGMA = ['a', 'b', 'A', 'B', 'z', 'é', 'É', '中', '0', '1', '2', '٣', '.', ' ', '(', ')', '\\', '/', '@', ':',
          '[', ']', '*', '?', '+', '-', '_', '$', '^', '{', '|', '~']
 assert len(set(SIGMA)) == 32
+# Σ-ext = Σ + compatibility look-alikes of the dangerous characters (what Unicode normalisation folds into a
+# separator, a dot or several letters), a combining accent (so that 'e' + U+0301 is a decomposed 'é') and a ligature:
+#   U+FF0F fullwidth solidus, U+FF3C fullwidth reverse solidus, U+2215 division slash, U+2024 one dot leader,
+#   U+FF0E fullwidth full stop, U+FE52 small full stop, U+0301 combining acute, 'e', U+FB01 ligature fi   (41 = 6 bits)
+SIGMA_EXT = SIGMA + ['\uff0f', '\uff3c', '\u2215', '\u2024', '\uff0e', '\ufe52', '\u0301', 'e', '\ufb01']
+assert len(set(SIGMA_EXT)) == 41
+ALPHABETS = {'base': SIGMA, 'ext': SIGMA_EXT}
 DL = '/vdl/DL'          # symbolic runs; no character of it is in Σ, so a peer cannot name it
 STRATEGIES = {'D': NM.DefaultNamingStrategy, 'K': NM.KeepDirectoryStrategy, 'N': NM.NumberDuplicateStrategy}
-_PROXY_NAMES = ('SStr', 'SInt', 'SBool', 'SReal', 'SMatch', 'SPattern', 'ReShim', 'OsShim', 'PathShim', 'FnmatchShim', 'BitVecRef', 'BoolRef')
+_PROXY_NAMES = ('SStr', 'SInt', 'SBool', 'SReal', 'SMatch', 'SPattern', 'ReShim', 'OsShim', 'PathShim', 'FnmatchShim', 'UnicodedataShim',
+                'BitVecRef', 'BoolRef')
 
 
 def code_raised(e: BaseException) -> bool:
@@ -209,14 +217,23 @@ class Env:
         if self.c.symbolic:
             import fnmatch as real_fnmatch
             import os as real_os
+            import sys
+            import unicodedata as real_ud
             shim_re = sstr.ReShim()
             shim_os = sstr.OsShim(self.be.fs)
-            shims = {'re': (re, shim_re), 'os': (real_os, shim_os), 'fnmatch': (real_fnmatch, sstr.FnmatchShim(shim_re))}
-            # whichever of these modules a module under test has imported is replaced by its stand-in
+            shim_ud = sstr.UnicodedataShim()
+            # whichever of these stdlib modules (or functions imported from them by name) a module under test
+            # holds in its globals is replaced by the stand-in
             for mod in (UT, NM, TMm, SM):
-                for name, (real, shim) in shims.items():
-                    if mod.__dict__.get(name) is real:
-                        self._set(mod, name, shim)
+                def setter(name, value, mod=mod):
+                    self._set(mod, name, value)
+                sstr.replace_by_identity(mod.__dict__, re, shim_re, setter)
+                sstr.replace_by_identity(mod.__dict__, real_os, shim_os, setter, path_attr='path')
+                sstr.replace_by_identity(mod.__dict__, real_fnmatch, sstr.FnmatchShim(shim_re), setter)
+                sstr.replace_by_identity(mod.__dict__, real_ud, shim_ud, setter)
+            # a function-local `import unicodedata` finds the stand-in too (plain arguments pass through)
+            self._sysmod = ('unicodedata', sys.modules.get('unicodedata'))
+            sys.modules['unicodedata'] = shim_ud
             self._set(NM, 'int', sstr.sym_int)
             self._numfmt = sstr.numeric_formatting().__enter__()
         if self.c.symbolic or self.suspending:
@@ -226,6 +243,13 @@ class Env:
         return self
 
     def __exit__(self, *a):
+        if getattr(self, '_sysmod', None) is not None:
+            import sys
+            if self._sysmod[1] is None:
+                sys.modules.pop(self._sysmod[0], None)
+            else:
+                sys.modules[self._sysmod[0]] = self._sysmod[1]
+            self._sysmod = None
         if getattr(self, '_numfmt', None) is not None:
             self._numfmt.__exit__()
             self._numfmt = None
@@ -418,8 +442,8 @@ def judge(c, be, chain, d, f, existed, local_path, ctx_sig=()):
 # H1: one download, every remote path of a shape, every directory content of a shape
 # ------------------------------------------------------------------------------
 
-def h_name(c, chain='DN', shape='xxx', dirspec=None):
-    sstr.use_alphabet(SIGMA)
+def h_name(c, chain='DN', shape='xxx', dirspec=None, sigma='base'):
+    sstr.use_alphabet(ALPHABETS[sigma])
     be = ModelDir() if c.symbolic else DiskDir()
     try:
         remote = build_remote(c, shape)
@@ -471,12 +495,12 @@ class _Conn:
         return None
 
 
-def h_concurrent(c, chain='DN', shapes=('c', 'c'), dirspec=None, staggered=False):
+def h_concurrent(c, chain='DN', shapes=('c', 'c'), dirspec=None, staggered=False, sigma='base'):
     """every download runs the real TransferManager._download_file (path choice, directory creation, state
     change, open(..., 'ab')) on the virtual loop; each file-system call is a suspension point and the order in
     which ready tasks continue is chosen (all interleavings until every download has chosen its path).
     staggered: each download only starts after the previous one is receiving (its file has been created)."""
-    sstr.use_alphabet(SIGMA)
+    sstr.use_alphabet(ALPHABETS[sigma])
     be = ModelDir() if c.symbolic else DiskDir()
     loop = None
     try:
@@ -544,9 +568,44 @@ def h_concurrent(c, chain='DN', shapes=('c', 'c'), dirspec=None, staggered=False
 # string, a witness of the path condition is run through CPython's re / posixpath / int and must agree.
 # ------------------------------------------------------------------------------
 
+def h_selfcheck_unicode(c, n=2):
+    """the unicodedata stand-in on fully symbolic strings over Σ-ext against CPython on a witness of every path"""
+    import unicodedata
+    sstr.use_alphabet(SIGMA_EXT)
+    s = sstr.fresh_str(c, 's', n)
+    ch = sstr.fresh_str(c, 'ch', 1)
+    shim = sstr.UnicodedataShim()
+
+    def run(ud, string, one):
+        out = {f: ud.normalize(f, string) for f in ('NFC', 'NFD', 'NFKC', 'NFKD')}
+        out['nfkc_ctx'] = ud.normalize('NFKC', 'e' + string + '\u0301')
+        out.update(category=ud.category(one), combining=ud.combining(one), decimal=ud.decimal(one, -1),
+                   is_nfc=ud.is_normalized('NFC', string))
+        return out
+    if not c.symbolic:
+        c.reach('selfcheck')
+        c.check(run(shim, s, ch) == run(unicodedata, s, ch), 'shim_agrees_with_cpython', info=repr((s, ch)))
+        return
+    mine = run(shim, s, ch)
+    c.witness('selfcheck')
+    model = c._model
+    if model is None:
+        raise symex.HarnessError('no model for a feasible path')
+    s0, ch0 = sstr.concretize(s, model), sstr.concretize(ch, model)
+    real = run(unicodedata, s0, ch0)
+    c.reach('selfcheck')
+    c.check({k: (sstr.concretize(v, model) if isinstance(v, (str, sstr.SStr)) else v) for k, v in mine.items()} == real,
+            'shim_agrees_with_cpython', info=repr((s0, ch0)))
+
+
 def h_selfcheck(c, n=3):
     import types
     sstr.use_alphabet(SIGMA)
+    # the patterns the code uses today; pinned copies if the code under test no longer has them
+    num_pattern = getattr(NM.NumberDuplicateStrategy, 'PATTERN', None)
+    num_pattern = num_pattern if isinstance(num_pattern, str) else r' \((\d+)\)'
+    sep_pattern = getattr(UT, 'PATH_SEPERATOR_PATTERN', None)
+    sep_pattern = sep_pattern if isinstance(sep_pattern, (str, re.Pattern)) else r'[\\/]+'
     s = sstr.fresh_str(c, 's', n)
     t = sstr.fresh_str(c, 't', 2)
     u = sstr.fresh_str(c, 'u', 2) + ' (' + sstr.fresh_str(c, 'v', 2) + ')' + sstr.fresh_str(c, 'w', 1)
@@ -554,9 +613,9 @@ def h_selfcheck(c, n=3):
     my_path = types.SimpleNamespace(splitext=sstr.p_splitext, split=sstr.p_split, join=sstr.p_join)
 
     def run(rx, path_mod, to_int, string, stem, numbered):
-        num = rx.match(rx.escape(stem) + NM.NumberDuplicateStrategy.PATTERN, numbered)
+        num = rx.match(rx.escape(stem) + num_pattern, numbered)
         drive = rx.match(r'[a-zA-Z]{1}:', string)
-        out = {'split': rx.split(UT.PATH_SEPERATOR_PATTERN, string), 'drive': None if drive is None else drive.span(),
+        out = {'split': rx.split(sep_pattern, string), 'drive': None if drive is None else drive.span(),
                'num': None if num is None else (num.span(), num.group(1), to_int(num.group(1))),
                'splitext': path_mod.splitext(string), 'psplit': path_mod.split(string), 'join': path_mod.join('/d', string),
                'alias': bool(string.startswith('@@')), 'rfind': string.rfind('.'), 'lower': string.lower(),
@@ -643,7 +702,10 @@ def prelude(tier):
     notes = sstr.selftest(alphabet='ab.(/\\ 1)A:*' if tier == 'thorough' else 'a.(/\\ 1)', maxlen=3)
     notes += _validate_fs_model()
     if tier == 'thorough':
-        notes += _second_engine()
+        try:
+            notes += _second_engine()
+        except Exception as e:  # noqa  (depends on the code under test: never a harness error)
+            notes.append(f'second engine: no opinion ({e!r})')
     return notes
 
 
@@ -750,17 +812,18 @@ def jobs(tier):
                     'timeout_s': 120 if q else 900})
 
     add('selfcheck', h_selfcheck, requires=['selfcheck'], n=2 if q else 3)
+    add('selfcheck_unicode', h_selfcheck_unicode, requires=['selfcheck'], n=1 if q else 2)
     # (a) containment / regular name: free-form remote paths (every character any of Σ), every chain
     for chain in ALL_CHAINS:
         for n in range(0, (5 if q else 8) + 1):
-            add('name', h_name, requires=['chosen'] if n >= 1 else [], chain=chain, shape='x' * n, dirspec=None)
+            add('name', h_name, requires=['chosen'] if n >= 1 else [], chain=chain, shape='x' * n, dirspec=None, sigma='ext')
     # longer structured paths: up to 4 components, 1..2 separator characters between them, alias / drive prefixes
     struct = ['ccscc', 'cssccsc', 'scscsc', '@@csccsc', 'c:scsc', 'csc:scc']
     if not q:
         struct += ['cc', 'csc', 'ccsccscc', 'ccsscssccscc', 'cscscscsc', '@@ccsccssccscc', 'ccscsccs', 'sscscc', 'cccccsccccc']
     for chain in ALL_CHAINS:
         for sh in struct:
-            add('name', h_name, chain=chain, shape=sh, dirspec=None)
+            add('name', h_name, chain=chain, shape=sh, dirspec=None, sigma='ext')
     # (b) freshness: directory contents shaped around the candidate name (all their characters symbolic)
     specs = [['S'], ['N1'], ['S', 'N1'], ['S', 'N1', 'N1'], ['S', 'N2'], ['S', 'N1', 'N1+1'], ['S', 'N1', 'N2']]
     for sh in (['c', 'cc', 'ccc'] if q else ['c', 'cc', 'ccc', 'cccc']):
